@@ -1,11 +1,11 @@
 SPECIFICATION Spec
 CONSTANTS
   Configs <- MCConfigs
-  ChunkSizes = {0, 6, 12}
+  ChunkSizes = {0, 3, 6, 12}
   SmallMsg = 4
   BigMsg = 20
   MaxErr = 3
-  RcptBound = 3
+  RcptBound = 1
   Alphabet <- MCAlphabet
 VIEW View
 INVARIANTS TypeOK C03_ObserverAgrees C03_RcptLimit C04_Enhanced C08_LogoutOnce C08_AllLoggedOutAtClose C19_ErrFlood
